@@ -175,6 +175,14 @@ Theorem check_interval_test :
 Proof. exact close_r_sound. Qed.
 Print Assumptions check_interval_test.
 
+(* large trace counts are given run-length encoded, (row, repetitions) in feeding order; the weighted spec evaluated on the runs
+   is the spec of the expanded list of rows, for every list of runs *)
+Theorem run_length_spec_is_the_spec :
+  (forall wl : list (obs * positive), pearson_w wl = pearson (expand wl))
+  /\ (forall wl : list (dobs * positive), dpa_spec_w wl = dpa_spec (expand wl)).
+Proof. exact (conj pearson_w_expand dpa_spec_w_expand). Qed.
+Print Assumptions run_length_spec_is_the_spec.
+
 (* ================================================================ non-vacuity *)
 Definition q (z : Z) : Qc := qz z.
 Definition show3 (t : option triple) : option (Q * Q * Q) :=
@@ -232,4 +240,16 @@ Example ex_check_rejects :
   /\ cpa_check (ex_case (Fin 1141870915999781 (-51)) (Fin 0 0)) = false (* finite where undefined *)
   /\ cpa_check (ex_case NaN NaN) = false                                (* NaN where defined and well conditioned *)
   /\ cpa_check (ex_case (Fin (-1141870915999781) (-51)) NaN) = false.   (* wrong sign *)
+Proof. repeat split; vm_compute; reflexivity. Qed.
+
+(* run-length: 3 x (1,2), 2 x (4,1), 1 x (5,6) is the six-row list; 131072 balanced DPA traces: difference 2 - 1 = 1 *)
+Example ex_run_length :
+  show3 (pearson_w [((q 1, q 2), 3%positive); ((q 4, q 1), 2%positive); ((q 5, q 6), 1%positive)])
+  = show3 (pearson [(q 1, q 2); (q 1, q 2); (q 1, q 2); (q 4, q 1); (q 4, q 1); (q 5, q 6)]).
+Proof. vm_compute. reflexivity. Qed.
+Definition ex_rl (v : fval) : rl_case :=
+  {| r_kind := KDpa; r_prec := F64; r_W := 1%nat;
+     r_runs := [(2, [1], 30000%positive); (1, [0], 65536%positive); (2, [1], 35536%positive)]%Z;
+     r_obs_shape := [1; 1]%nat; r_obs := [v] |}.
+Example ex_rl_check : rl_check (ex_rl (Fin 1 0)) = true /\ rl_check (ex_rl PInf) = false /\ rl_check (ex_rl (Fin 1 3)) = false.
 Proof. repeat split; vm_compute; reflexivity. Qed.
